@@ -161,7 +161,12 @@ func newNotificationsTracker(namespace string, shard int64, lastOffset int64, kv
 }
 
 func (nt *notificationsTracker) UpdatedCommitOffset(offset int64) {
+	// The offset must change under the lock the waiters check it under: otherwise the update and the
+	// broadcast can both fall between a waiter's check and its Wait(), and that waiter sleeps until the
+	// NEXT commit although its batch is already there.
+	nt.Lock()
 	nt.lastOffset.Store(offset)
+	nt.Unlock()
 	nt.cond.Broadcast()
 }
 
@@ -232,7 +237,9 @@ func (nt *notificationsTracker) Close() error {
 		return nil
 	default:
 		nt.cancel()
+		nt.Lock()
 		nt.closed.Store(true)
+		nt.Unlock()
 		nt.cond.Broadcast()
 		return nt.waitClose.Wait(context.Background())
 	}
